@@ -149,7 +149,7 @@ theorem finishStep_susp {inp : Input} {s s' : Sys} {n : Name} {perm : List Name}
 
 theorem obey_init (inp : Input) : ObeyInv inp (init inp) :=
   ⟨⟨fun _ _ h => by simp [init] at h, fun d hd => by simp [stOf, init] at hd, fun d hd => by simp [stOf, init] at hd,
-    fun d hd => by simp [stOf, init] at hd, rfl⟩, fun n h => by simp [init] at h⟩
+    fun d hd => by simp [stOf, init] at hd, rfl, rfl⟩, fun n h => by simp [init] at h⟩
 
 theorem obey_step {inp : Input} {s s' : Sys} {c : Choice} (h : ObeyInv inp s) (ha : AfterInv inp s)
     (hs : step inp s c = some s') : ObeyInv inp s' := by
